@@ -33,10 +33,10 @@ class C10(Check):
     def bounds(self, tier):
         if tier == 'quick':
             return {'W': '1..4', 'N': '1..3', 'T': 'W..W+3', 'series': '1..3, lengths W..W+2 independently',
-                    'labels': 'symbolic ints', 'split': '1..3 series of 1..3 stacked points, W 1..5',
+                    'labels': 'symbolic ints', 'split': '1..3 series of 1..3 stacked points, W 1..5', 'memory order of the input': ['C', 'F'],
                     'call history': 'one earlier stacking of any other geometry (W 1..3, N 1..3, T W..W+2) in the same process'}
         return {'W': '1..12', 'N': '1..6', 'T': 'W..W+40 (the whole range the property states)', 'series': '1..6, lengths W..W+2 independently (W<=4, N<=2; 5-6 series: W<=2)',
-                'labels': 'symbolic ints', 'split': '1..4 series of 1..4 stacked points, W 1..9',
+                'labels': 'symbolic ints', 'split': '1..4 series of 1..4 stacked points, W 1..9', 'memory order of the input': ['C', 'F'],
                 'call history': 'one earlier stacking of any other geometry (W 1..4, N 1..4, T W..W+3) in the same process'}
 
     def configs(self, tier):
@@ -63,8 +63,12 @@ class C10(Check):
         c.assume(z3.And(I(T) >= I(W), I(T) <= I(W) + dT))
         Tn = int(T)
         data = stubs.sym_array(c, 'd', (Tn, N), kind='bits')
+        order = 'F' if (N > 1 and Tn > 1 and bool(int(c.int('fortran_order', 0, 1)))) else 'C'
+        if order == 'F':
+            # the same values in column-major memory order (what np.loadtxt(...).T or a pickled fixture gives)
+            data = np._laid_out(data._flat(), data.shape, data.dtype, [1, 0], owner='caller')
         snap = stubs.snapshot(data)
-        c.notes.update({'T': Tn, 'N': N})
+        c.notes.update({'T': Tn, 'N': N, 'order': order})
         ok, out = guarded(c, 'stack_shape', dp.stack_training_data, data, W)
         if not ok:
             return
